@@ -288,6 +288,36 @@ theorem makeBondWeights_nonneg (H : Ham) : ∀ w ∈ makeBondWeights H, 0 ≤ w 
 theorem readVars_length (st : List Bool) (vars : List Nat) : (readVars st vars).length = vars.length := by
   unfold readVars; simp
 
+/-! ### small list facts about tables -/
+
+theorem getD_nonneg (bw : BW) (hbw : ∀ w ∈ bw, 0 ≤ w) (i : Nat) : 0 ≤ bw.getD i 0 := by
+  rw [List.getD_eq_getElem?_getD]
+  cases hget : bw[i]? with
+  | none => simp
+  | some x => simp only [Option.getD_some]; exact hbw x (List.mem_of_getElem? hget)
+
+/-- the total of a table of non-negative entries is non-negative … -/
+theorem sum_nonneg_of_nonneg : ∀ (ws : List Rat), (∀ w ∈ ws, 0 ≤ w) → 0 ≤ ws.sum
+  | [], _ => by simp
+  | w :: t, h => by
+    simp only [List.sum_cons]
+    have := sum_nonneg_of_nonneg t (fun y hy => h y (by simp [hy]))
+    have := h w (by simp)
+    linarith
+
+/-- … and dominates each entry -/
+theorem le_sum_of_mem : ∀ (ws : List Rat), (∀ w ∈ ws, 0 ≤ w) → ∀ (b : Nat), ws.getD b 0 ≤ ws.sum
+  | [], _, b => by simp
+  | w :: t, h, 0 => by
+    simp only [List.getD_cons_zero, List.sum_cons]
+    have := sum_nonneg_of_nonneg t (fun y hy => h y (by simp [hy]))
+    linarith
+  | w :: t, h, b + 1 => by
+    simp only [List.getD_cons_succ, List.sum_cons]
+    have := le_sum_of_mem t (fun y hy => h y (by simp [hy])) b
+    have := h w (by simp)
+    linarith
+
 /-! ### table validity -/
 
 theorem GenS.step_valid {ι : Type} (mk : List ι → BW) (s : GenS ι) (op : GenOp ι)
